@@ -14,8 +14,10 @@ import (
 	"sync"
 
 	"github.com/wader/fq/internal/bitiox"
+	"github.com/wader/fq/pkg/bitio"
 	"github.com/wader/fq/pkg/decode"
 	"github.com/wader/fq/pkg/interp"
+	"github.com/wader/fq/pkg/ranges"
 	"github.com/wader/fq/verif/lib/fqx"
 	"github.com/wader/fq/verif/lib/treegen"
 	"github.com/wader/gojq"
@@ -210,4 +212,72 @@ func RawOutput(v any) ([]byte, error) {
 func IsBinary(v any) bool {
 	_, ok := v.(interp.Binary)
 	return ok
+}
+
+// ---------------------------------------------------------------------------
+// decodes of a sub-range of a larger buffer (what `binary[a:b] | format` and
+// `value | tobytesrange | format` do: decode.Options.Range)
+
+// Embed returns a buffer of preBits filler bits, then the nBits bits of data,
+// then sufBits filler bits (filler derived from seed), and its bit length.
+func Embed(data []byte, nBits, preBits, sufBits int64, seed uint64) ([]byte, int64) {
+	total := preBits + nBits + sufBits
+	out := make([]byte, (total+7)/8)
+	x := seed
+	for i := range out {
+		x += 0x9e3779b97f4a7c15
+		z := (x ^ (x >> 30)) * 0xbf58476d1ce4e5b9
+		z = (z ^ (z >> 27)) * 0x94d049bb133111eb
+		out[i] = byte(z ^ (z >> 31))
+	}
+	if preBits%8 == 0 {
+		// whole bytes first, then fix the last partial byte below
+		copy(out[preBits/8:], data[:nBits/8])
+		for i := nBits / 8 * 8; i < nBits; i++ {
+			setBit(out, preBits+i, treegen.Bit(data, i))
+		}
+	} else {
+		for i := int64(0); i < nBits; i++ {
+			setBit(out, preBits+i, treegen.Bit(data, i))
+		}
+	}
+	// bits behind the end of the buffer are zero
+	for i := total; i < int64(len(out))*8; i++ {
+		setBit(out, i, 0)
+	}
+	return out, total
+}
+
+func setBit(b []byte, i int64, v byte) {
+	m := byte(0x80) >> uint(i&7)
+	if v != 0 {
+		b[i>>3] |= m
+	} else {
+		b[i>>3] &^= m
+	}
+}
+
+// DecodeRange decodes bits [start, start+n) of buf like fq's _decode does for
+// a binary whose range does not cover its whole buffer (root, gap filling).
+func DecodeRange(buf []byte, bufBits int64, format string, start, n int64, force bool) (top *decode.Value, err error) {
+	g, err := interp.DefaultRegistry.Group(format)
+	if err != nil {
+		return nil, err
+	}
+	defer func() {
+		if r := recover(); r != nil {
+			top, err = nil, fmt.Errorf("decoder panic: %v", r)
+		}
+	}()
+	br := bitio.NewBitReader(buf, bufBits)
+	top, _, err = decode.Decode(context.Background(), br, g, decode.Options{
+		IsRoot: true, FillGaps: true, Force: force, Description: "verif",
+		Range: ranges.Range{Start: start, Len: n},
+	})
+	return top, err
+}
+
+// BinaryOf is the jq binary (byte units) over buf.
+func BinaryOf(buf []byte, bufBits int64) (any, error) {
+	return interp.NewBinaryFromBitReader(bitio.NewBitReader(buf, bufBits), 8, 0)
 }
